@@ -8,8 +8,8 @@ package topologyaware
 import (
 	"sort"
 
-	policyapi "github.com/containers/nri-plugins/pkg/resmgr/policy"
 	libmem "github.com/containers/nri-plugins/pkg/resmgr/lib/memory"
+	policyapi "github.com/containers/nri-plugins/pkg/resmgr/policy"
 )
 
 // VerifGrant is a rendering of one grant.
